@@ -432,6 +432,180 @@ Proof.
 Qed.
 
 (* ---------------------------------------------------------------------------------------- *)
+(* K17 repair: an attribute is stored under the name of a pending attribute with the same expanded name *)
+
+Lemma same_exp_spec : forall k n b, same_exp k n b = true ->
+  exists x l y u, n = (Some x, l) /\ a_name b = (Some y, l) /\ x <> y /\ y <> AXmlns
+    /\ ns_for_prefix k (Some x) = Some u /\ ns_for_prefix k (Some y) = Some u.
+Proof.
+  intros k [[x|] l] b H; unfold same_exp in H; [|discriminate].
+  destruct (a_name b) as [[y|] l'] eqn:E; [|discriminate].
+  apply andb_true_iff in H. destruct H as [H H4]. apply andb_true_iff in H. destruct H as [H H3].
+  apply andb_true_iff in H. destruct H as [H1 H2].
+  apply atom_eqb_eq in H1. subst l'.
+  destruct (ns_for_prefix k (Some x)) as [u|] eqn:Ex; [|discriminate].
+  destruct (ns_for_prefix k (Some y)) as [w|] eqn:Ey; [|discriminate].
+  apply N.eqb_eq in H4. subst w.
+  exists x, l, y, u. repeat split; auto.
+  - intro X. subst. rewrite atom_eqb_refl in H2. discriminate.
+  - intro X. subst. discriminate.
+Qed.
+
+Lemma merge_target_some : forall k l n n', merge_target k l n = Some n' ->
+  exists b, In b l /\ a_name b = n' /\ same_exp k n b = true.
+Proof.
+  intros k l n n' H. unfold merge_target in H. destruct (find (same_exp k n) l) as [b|] eqn:F; [|discriminate].
+  inversion H; subst. apply find_some in F. exists b. tauto.
+Qed.
+
+Lemma merge_target_none : forall k l n, merge_target k l n = None -> forall b, In b l -> same_exp k n b = false.
+Proof.
+  intros k l n H b Hb. unfold merge_target in H. destruct (find (same_exp k n) l) as [b0|] eqn:F; [discriminate|].
+  exact (find_none _ _ F b Hb).
+Qed.
+
+Lemma mresolve_of_nfp : forall k y u, y <> AXmlns -> ns_for_prefix k (Some y) = Some u -> u <> 0 ->
+  mresolve k (Some y) = Some u.
+Proof.
+  intros k y u Hy H Hu. apply N.eqb_neq in Hu. destruct y; try congruence.
+  - simpl in H. inversion H. reflexivity.
+  - rewrite nfp_raw in H by discriminate. unfold mresolve. rewrite H, Hu. reflexivity.
+  - rewrite nfp_raw in H by discriminate. unfold mresolve. rewrite H, Hu. reflexivity.
+  - rewrite nfp_raw in H by discriminate. unfold mresolve. rewrite H, Hu. reflexivity.
+Qed.
+
+Lemma nfp_of_mresolve : forall k x u, mresolve k (Some x) = Some u ->
+  ns_for_prefix k (Some x) = Some u /\ u <> 0 /\ x <> AXmlns.
+Proof.
+  intros k x u H. destruct x; simpl in H; try discriminate.
+  - inversion H. repeat split; try discriminate. 
+  - rewrite nfp_raw by discriminate. destruct (stk_lookup (Some (AXmlish n)) k) as [w|]; [|discriminate].
+    destruct (N.eqb w 0) eqn:E; [discriminate|]. inversion H; subst. apply N.eqb_neq in E. repeat split; auto; discriminate.
+  - rewrite nfp_raw by discriminate. destruct (stk_lookup (Some (AUser n)) k) as [w|]; [|discriminate].
+    destruct (N.eqb w 0) eqn:E; [discriminate|]. inversion H; subst. apply N.eqb_neq in E. repeat split; auto; discriminate.
+  - rewrite nfp_raw by discriminate. destruct (stk_lookup (Some (AGen n)) k) as [w|]; [|discriminate].
+    destruct (N.eqb w 0) eqn:E; [discriminate|]. inversion H; subst. apply N.eqb_neq in E. repeat split; auto; discriminate.
+Qed.
+
+(* what "fine" says about a non-declaration attribute *)
+Lemma okb_prefixed : forall k b y l, attr_okb k b = true -> is_declb b = false -> a_name b = (Some y, l) ->
+  mresolve k (Some y) = Some (fst (a_req b)) /\ snd (a_req b) = l.
+Proof.
+  intros k b y l H Hd En. unfold attr_okb, is_declb in *. destruct (decl_prefix (a_name b)); [discriminate|].
+  unfold mresolve_attr in H. rewrite En in H. cbn [fst snd] in H.
+  destruct (mresolve k (Some y)) as [u|]; [|discriminate].
+  simpl in H. apply ename_eqb_eq in H. rewrite <- H. auto.
+Qed.
+
+Lemma okb_unprefixed : forall k b l, attr_okb k b = true -> is_declb b = false -> a_name b = (None, l) ->
+  a_req b = (0, l).
+Proof.
+  intros k b l H Hd En. unfold attr_okb, is_declb in *. destruct (decl_prefix (a_name b)); [discriminate|].
+  unfold mresolve_attr in H. rewrite En in H. cbn [fst snd] in H. simpl in H. apply ename_eqb_eq in H. auto.
+Qed.
+
+Lemma exb_in : forall l b, In b l -> is_declb b = false -> exb (a_req b) l = true.
+Proof.
+  induction l as [|c r IH]; intros b Hin Hd; [contradiction|].
+  rewrite exb_cons. destruct Hin as [->|Hin].
+  - rewrite Hd, ename_eqb_refl. reflexivity.
+  - rewrite (IH b Hin Hd). destruct (is_declb c); [reflexivity | apply orb_true_r].
+Qed.
+
+Lemma nodup_reqs_inj : forall l b b0,
+  nodup_by ename_eqb (map a_req (plain_attrs l)) = true ->
+  In b l -> In b0 l -> is_declb b = false -> is_declb b0 = false -> a_req b = a_req b0 -> b = b0.
+Proof.
+  induction l as [|c r IH]; intros b b0 Hn Hb Hb0 Hd Hd0 He; [contradiction|].
+  rewrite plain_attrs_cons in Hn.
+  destruct Hb as [->|Hb]; destruct Hb0 as [->|Hb0]; auto.
+  - rewrite Hd in Hn. simpl in Hn. apply andb_true_iff in Hn. destruct Hn as [Hn _].
+    apply negb_true_iff in Hn. pose proof (exb_in r b0 Hb0 Hd0) as X. unfold exb in X. rewrite <- He in X. congruence.
+  - rewrite Hd0 in Hn. simpl in Hn. apply andb_true_iff in Hn. destruct Hn as [Hn _].
+    apply negb_true_iff in Hn. pose proof (exb_in r b Hb Hd) as X. unfold exb in X. rewrite He in X. congruence.
+  - apply IH; auto. destruct (is_declb c); [exact Hn|]. simpl in Hn. apply andb_true_iff in Hn. tauto.
+Qed.
+
+Lemma no_clash_by_names : forall l a,
+  (forall b, In b l -> is_declb b = false -> a_req b = a_req a -> a_name b = a_name a) -> clashb l a = false.
+Proof.
+  intros l a H. unfold clashb. destruct (existsb _ l) eqn:E; [|reflexivity]. exfalso.
+  apply existsb_exists in E. destruct E as [b [Hb Hc]].
+  destruct (decl_prefix (a_name b)) eqn:D; [discriminate|].
+  apply andb_true_iff in Hc. destruct Hc as [H1 H2]. apply ename_eqb_eq in H1.
+  assert (Hd : is_declb b = false) by (unfold is_declb; rewrite D; reflexivity).
+  rewrite (H b Hb Hd H1), qname_eqb_refl in H2. discriminate.
+Qed.
+
+Lemma forallb_In : forall {A} (f : A -> bool) l x, forallb f l = true -> In x l -> f x = true.
+Proof. intros A f l x H Hin. rewrite forallb_forall in H. auto. Qed.
+
+Lemma Pcore_addx : forall k l a, Pcore k l -> is_declb a = false -> attr_okb k a = true ->
+  (k17_fixed = false -> clashb l a = false) -> Pcore k (add_attr_x k l a).
+Proof.
+  intros k l a HP Ha Hok Hcl. unfold add_attr_x. destruct k17_fixed eqn:F; [|apply Pcore_emit; auto; fail].
+  pose proof HP as [_ [Hall [Hnn Hnr]]].
+  destruct (merge_target k l (a_name a)) as [n'|] eqn:M.
+  - (* stored under the name of the pending attribute b0 *)
+    destruct (merge_target_some _ _ _ _ M) as [b0 [Hb0 [En0 Hs]]].
+    destruct (same_exp_spec _ _ _ Hs) as (x & lo & y & u & En & Eb0 & Hxy & Hy & Nx & Ny).
+    assert (Hd0 : is_declb b0 = false).
+    { unfold is_declb. rewrite Eb0. rewrite decl_prefix_prefixed by assumption. reflexivity. }
+    destruct (okb_prefixed k a x lo Hok Ha En) as [Mx Sx].
+    destruct (nfp_of_mresolve _ _ _ Mx) as [Nx' [Hu _]]. rewrite Nx in Nx'. inversion Nx'. subst u.
+    pose proof (mresolve_of_nfp k y _ Hy Ny Hu) as My.
+    destruct (okb_prefixed k b0 y lo (forallb_In _ _ _ Hall Hb0) Hd0 Eb0) as [My0 Sy0].
+    assert (Er0 : a_req b0 = a_req a).
+    { rewrite My in My0. inversion My0. destruct (a_req b0), (a_req a). simpl in *. congruence. }
+    assert (Hd' : is_declb (mkAttr n' (a_val a) (a_req a)) = false).
+    { unfold is_declb. cbn [a_name]. rewrite <- En0, Eb0. rewrite decl_prefix_prefixed by assumption. reflexivity. }
+    assert (OK' : attr_okb k (mkAttr n' (a_val a) (a_req a)) = true).
+    { unfold attr_okb. cbn [a_name a_req]. rewrite <- En0, Eb0.
+      rewrite decl_prefix_prefixed by assumption. unfold mresolve_attr. cbn [fst snd]. rewrite My.
+      simpl. apply ename_eqb_eq. destruct (a_req a). simpl in *. congruence. }
+    assert (NC' : clashb l (mkAttr n' (a_val a) (a_req a)) = false).
+    { apply no_clash_by_names. cbn [a_name a_req]. intros b Hb Hd Er.
+      rewrite <- En0. f_equal. apply (nodup_reqs_inj l); auto. congruence. }
+    apply Pcore_emit; assumption.
+  - assert (NC : clashb l a = false).
+    { apply no_clash_by_names. intros b Hb Hd Er.
+      pose proof (forallb_In _ _ _ Hall Hb) as Hbo.
+      destruct (a_name a) as [[x|] lo] eqn:En; destruct (a_name b) as [[y|] lb] eqn:Eb.
+      + destruct (okb_prefixed k a x lo Hok Ha En) as [Mx Sx].
+        destruct (okb_prefixed k b y lb Hbo Hd Eb) as [My Sy].
+        assert (Hl : lb = lo) by (rewrite <- Sx, <- Sy, Er; reflexivity). rewrite Hl in *.
+        destruct (atom_eqb x y) eqn:Exy; [apply atom_eqb_eq in Exy; rewrite Exy; reflexivity|]. exfalso.
+        destruct (nfp_of_mresolve _ _ _ Mx) as [Nx _]. destruct (nfp_of_mresolve _ _ _ My) as [Ny [_ Hy]].
+        pose proof (merge_target_none _ _ _ M b Hb) as Hs. unfold same_exp in Hs. rewrite Eb in Hs.
+        rewrite atom_eqb_refl, Exy, Nx, Ny, Er, N.eqb_refl in Hs. cbn [negb andb] in Hs.
+        destruct (atom_eqb y AXmlns) eqn:Q; [apply atom_eqb_eq in Q; contradiction | discriminate].
+      + exfalso. destruct (okb_prefixed k a x lo Hok Ha En) as [Mx _].
+        destruct (nfp_of_mresolve _ _ _ Mx) as [_ [Hu _]].
+        rewrite (okb_unprefixed k b lb Hbo Hd Eb) in Er. rewrite <- Er in Hu. apply Hu. reflexivity.
+      + exfalso. destruct (okb_prefixed k b y lb Hbo Hd Eb) as [My _].
+        destruct (nfp_of_mresolve _ _ _ My) as [_ [Hu _]].
+        rewrite (okb_unprefixed k a lo Hok Ha En) in Er. rewrite Er in Hu. apply Hu. reflexivity.
+      + rewrite (okb_unprefixed k a lo Hok Ha En), (okb_unprefixed k b lb Hbo Hd Eb) in Er. congruence. }
+    apply Pcore_emit; assumption.
+Qed.
+
+Lemma exb_addx : forall e k l a, is_declb a = false -> (forall n', merge_target k l (a_name a) = Some n' -> decl_prefix n' = None) ->
+  exb e (add_attr_x k l a) = true -> exb e l = true \/ ename_eqb e (a_req a) = true.
+Proof.
+  intros e k l a Ha Hm. unfold add_attr_x. destruct k17_fixed; [|apply exb_add; exact Ha].
+  destruct (merge_target k l (a_name a)) as [n'|] eqn:M; [|apply exb_add; exact Ha].
+  intro H. apply (exb_add e l (mkAttr n' (a_val a) (a_req a))) in H; [exact H|].
+  unfold is_declb. cbn [a_name]. rewrite (Hm n' eq_refl). reflexivity.
+Qed.
+
+Lemma merge_target_plain : forall k l n n', merge_target k l n = Some n' -> decl_prefix n' = None.
+Proof.
+  intros k l n n' M. destruct (merge_target_some _ _ _ _ M) as [b0 [_ [En0 Hs]]].
+  destruct (same_exp_spec _ _ _ Hs) as (x & lo & y & u & _ & Eb0 & _ & Hy & _).
+  rewrite <- En0, Eb0. apply decl_prefix_prefixed. exact Hy.
+Qed.
+
+(* ---------------------------------------------------------------------------------------- *)
 (* state-level lemmas while an element is pending *)
 
 Definition upd (s : st) (k : list ctx) (l : list attr) : st := mkSt k (pend s) l (ctr s) (out s) (hz s).
@@ -559,14 +733,14 @@ Qed.
 
 Lemma emit_attr_plain_eq : forall s n v r, decl_prefix n = None ->
   emit_attr s n v r =
-  (if clashb (pattrs s) (mkAttr n v r)
-   then upd (add_hz s HK17) (stk s) (add_attribute (pattrs s) (mkAttr n v r))
-   else upd s (stk s) (add_attribute (pattrs s) (mkAttr n v r))).
+  (if clashb (pattrs s) (mkAttr n v r) && negb k17_fixed
+   then upd (add_hz s HK17) (stk s) (add_attr_x (stk s) (pattrs s) (mkAttr n v r))
+   else upd s (stk s) (add_attr_x (stk s) (pattrs s) (mkAttr n v r))).
 Proof.
   intros s n v r Hn. unfold emit_attr. rewrite Hn. unfold add_hz_if at 1.
   rewrite add_result_attr_plain by assumption.
   change (existsb _ (pattrs s)) with (clashb (pattrs s) (mkAttr n v r)).
-  destruct (clashb (pattrs s) (mkAttr n v r)); reflexivity.
+  destruct (clashb (pattrs s) (mkAttr n v r) && negb k17_fixed); reflexivity.
 Qed.
 
 Lemma L_emit : forall s pe n v r, InvCore s -> pend s = Some pe -> decl_prefix n = None ->
@@ -576,12 +750,14 @@ Lemma L_emit : forall s pe n v r, InvCore s -> pend s = Some pe -> decl_prefix n
 Proof.
   intros s pe n v r HI Hp Hn Hok Hh. cbv zeta.
   rewrite emit_attr_plain_eq in * by assumption.
-  destruct (clashb (pattrs s) (mkAttr n v r)) eqn:Hc; [discriminate|].
+  destruct (clashb (pattrs s) (mkAttr n v r) && negb k17_fixed) eqn:Hc; [discriminate|].
   unfold upd in *. cbn [stk pend pattrs out hz ctr] in *. repeat split; auto.
   destruct (InvCore_pending_stk s pe HI Hp) as [top [rest [Es HP]]].
   unfold InvCore. cbn [stk pend pattrs out]. rewrite Hp. apply InvCore_update; auto.
   - exists top. rewrite Es. reflexivity.
-  - apply Pcore_emit; auto. unfold is_declb. cbn [a_name]. rewrite Hn. reflexivity.
+  - apply Pcore_addx; auto.
+    + unfold is_declb. cbn [a_name]. rewrite Hn. reflexivity.
+    + intro F. rewrite F in Hc. cbn [negb] in Hc. rewrite andb_true_r in Hc. exact Hc.
 Qed.
 
 Lemma L_gen : forall s g s1, gen_unique s = (g, s1) ->
@@ -617,7 +793,7 @@ Proof.
   intros s n v r H. unfold emit_attr in H. rewrite add_result_attr_hz in H.
   destruct (decl_prefix n); unfold add_hz_if, add_hz in H; cbn [hz] in H.
   - discriminate.
-  - split; [reflexivity|]. destruct (existsb _ (pattrs s)); cbn [hz] in H; [discriminate | exact H].
+  - split; [reflexivity|]. destruct (existsb _ (pattrs s) && negb k17_fixed); cbn [hz] in H; [discriminate | exact H].
 Qed.
 
 Lemma H_emit_only : forall s q req n v r, Inv s -> pend s = Some (q, req) ->
@@ -686,10 +862,10 @@ Qed.
 (* ---------------------------------------------------------------------------------------- *)
 (* xsl:attribute *)
 
-Lemma new_decl_Inv : forall s q req P L u v, Inv s -> pend s = Some (q, req) -> u <> 0 ->
-  hz (attr_new_decl s P L u v (u, L)) = [] -> Inv (attr_new_decl s P L u v (u, L)).
+Lemma new_decl_Inv : forall nr s q req P L u v, Inv s -> pend s = Some (q, req) -> u <> 0 ->
+  hz (attr_new_decl nr s P L u v (u, L)) = [] -> Inv (attr_new_decl nr s P L u v (u, L)).
 Proof.
-  intros s q req P L u v HI Hp Hu. unfold attr_new_decl.
+  intros nr s q req P L u v HI Hp Hu. unfold attr_new_decl.
   destruct P as [a|]; [|apply (H_gen_declare_emit s q req); assumption].
   destruct a.
   - (* xmlns *) apply (H_gen_declare_emit s q req); assumption.
@@ -705,25 +881,25 @@ Proof.
     destruct (stk_lookup (Some (AXmlish n)) (stk s)) as [w|] eqn:E.
     + destruct (N.eqb w u) eqn:Ew; cbn [negb andb].
       * apply N.eqb_eq in Ew. subst w. cbv zeta. apply (H_declare_emit s q req); auto.
-      * destruct (is_pending_prefix s (AXmlish n)) eqn:Ei.
+      * destruct (nr || is_pending_prefix s (AXmlish n)) eqn:Ei.
         -- apply (H_gen_declare_emit s q req); assumption.
-        -- cbv zeta. apply (H_declare_emit s q req); auto.
+        -- apply orb_false_iff in Ei. destruct Ei as [_ Ei]. cbv zeta. apply (H_declare_emit s q req); auto.
     + cbv zeta. apply (H_declare_emit s q req); auto.
   - cbn [atom_eqb andb]. rewrite (nfp_raw (stk s) (Some (AUser n))) by discriminate.
     destruct (stk_lookup (Some (AUser n)) (stk s)) as [w|] eqn:E.
     + destruct (N.eqb w u) eqn:Ew; cbn [negb andb].
       * apply N.eqb_eq in Ew. subst w. cbv zeta. apply (H_declare_emit s q req); auto.
-      * destruct (is_pending_prefix s (AUser n)) eqn:Ei.
+      * destruct (nr || is_pending_prefix s (AUser n)) eqn:Ei.
         -- apply (H_gen_declare_emit s q req); assumption.
-        -- cbv zeta. apply (H_declare_emit s q req); auto.
+        -- apply orb_false_iff in Ei. destruct Ei as [_ Ei]. cbv zeta. apply (H_declare_emit s q req); auto.
     + cbv zeta. apply (H_declare_emit s q req); auto.
   - cbn [atom_eqb andb]. rewrite (nfp_raw (stk s) (Some (AGen n))) by discriminate.
     destruct (stk_lookup (Some (AGen n)) (stk s)) as [w|] eqn:E.
     + destruct (N.eqb w u) eqn:Ew; cbn [negb andb].
       * apply N.eqb_eq in Ew. subst w. cbv zeta. apply (H_declare_emit s q req); auto.
-      * destruct (is_pending_prefix s (AGen n)) eqn:Ei.
+      * destruct (nr || is_pending_prefix s (AGen n)) eqn:Ei.
         -- apply (H_gen_declare_emit s q req); assumption.
-        -- cbv zeta. apply (H_declare_emit s q req); auto.
+        -- apply orb_false_iff in Ei. destruct Ei as [_ Ei]. cbv zeta. apply (H_declare_emit s q req); auto.
     + cbv zeta. apply (H_declare_emit s q req); auto.
 Qed.
 
@@ -780,10 +956,10 @@ Proof.
   - apply NOCONF; auto.
 Qed.
 
-Lemma attr_Inv : forall s name nsattr sns v, Inv s ->
-  hz (exec_attr s name nsattr sns v) = [] -> Inv (exec_attr s name nsattr sns v).
+Lemma attr_Inv : forall inset s name nsattr sns v, Inv s ->
+  hz (exec_attr inset s name nsattr sns v) = [] -> Inv (exec_attr inset s name nsattr sns v).
 Proof.
-  intros s [P L] nsattr sns v HI. unfold exec_attr. cbv beta zeta iota delta [fst snd].
+  intros inset s [P L] nsattr sns v HI. unfold exec_attr. cbv beta zeta iota delta [fst snd].
   destruct nsattr as [u|].
   - change (req_attr (P, L) (Some u) sns) with (u, L).
     destruct (pend s) as [[q req]|] eqn:Hp; [|intros _; exact HI].
@@ -793,9 +969,9 @@ Proof.
       unfold attr_okb. cbn [a_name a_req]. rewrite Hn. cbn. rewrite atom_eqb_refl. reflexivity.
     + assert (Hu : u <> 0) by (apply N.eqb_neq; exact Eu).
       destruct (prefix_for_ns (stk s) u) as [[q'|]|] eqn:Ef;
-        try (apply (new_decl_Inv s q req); assumption).
+        try (apply (new_decl_Inv _ s q req); assumption).
       destruct (match P with None => true | Some p => atom_eqb p q' end);
-        [|apply (new_decl_Inv s q req); assumption].
+        [|apply (new_decl_Inv _ s q req); assumption].
       intro Hh. apply (H_emit_only s q req); auto.
       destruct (emit_hz_nil _ _ _ _ Hh) as [Hn _].
       apply prefix_for_ns_sound in Ef.
@@ -973,6 +1149,9 @@ Proof.
   2:{ intros _. exact (proj1 (unprefixed_Inv s L nsattr sdef pdef HI)). }
   destruct sns as [n|]; destruct nsattr as [u|].
   - (* stylesheet binds p, namespace attribute given *)
+    destruct (kn6_fixed && match u with 0 => negb (atom_eqb p AXmlns) | N.pos _ => false end) eqn:K6.
+    { (* KN6 repair: namespace="" drops the declared prefix *)
+      intros _. exact (proj1 (unprefixed_Inv s L (Some u) sdef pdef HI)). }
     destruct (negb (N.eqb u 0) && (atom_eqb p AXmlns || atom_eqb p AXml && negb (N.eqb u uXML))) eqn:C.
     + intros _. exact (proj1 (unprefixed_Inv s L (Some u) sdef pdef HI)).
     + apply (general_Inv s p L _ u _ _ HI); [apply orb_false_split|]. intros H1 H2 H3.
@@ -982,13 +1161,16 @@ Proof.
       * change (N.pos u' =? 0) with false in *. cbn [andb] in *.
         destruct p; try reflexivity. unfold h2_of in H2. apply negb_false_iff in H2. apply N.eqb_eq in H2. exact H2.
   - (* stylesheet binds p, no namespace attribute *)
-    cbn [N.eqb negb andb]. apply (general_Inv s p L _ _ false _ HI); [apply orb_false_split|]. intros _ H2 H3.
+    rewrite andb_false_r. cbn [N.eqb negb andb]. apply (general_Inv s p L _ _ false _ HI); [apply orb_false_split|]. intros _ H2 H3.
     cbn [N.eqb andb] in *.
     destruct p; cbn [atom_eqb negb fst] in *; try reflexivity; try discriminate.
   - (* prefix not bound in the stylesheet, namespace attribute given *)
     destruct (N.eq_dec u 0) as [->|Hne].
     + intros _. exact (proj1 (unprefixed_Inv s L (Some 0) sdef pdef HI)).
-    + assert (Eu : N.eqb u 0 = false) by (apply N.eqb_neq; exact Hne). rewrite Eu. cbn [negb andb].
+    + assert (K6 : kn6_fixed && match u with 0 => false | N.pos _ => false end = false)
+        by (destruct u; apply andb_false_r).
+      rewrite K6.
+      assert (Eu : N.eqb u 0 = false) by (apply N.eqb_neq; exact Hne). rewrite Eu. cbn [negb andb].
       destruct (atom_eqb p AXmlns || atom_eqb p AXml && negb (N.eqb u uXML)) eqn:C.
       * intros _. exact (proj1 (unprefixed_Inv s L (Some u) sdef pdef HI)).
       * apply (general_Inv s p L u u _ _ HI).
@@ -1252,7 +1434,7 @@ Proof.
   - destruct (Hok a (or_introl eq_refl)) as [Hn Hka].
     rewrite (add_result_attr_plain s (fst a) (snd a) (reqf (fst a)) Hn).
     set (na := mkAttr (fst a) (snd a) (reqf (fst a))) in *.
-    set (s1 := set_pattrs s (add_attribute (pattrs s) na)).
+    set (s1 := set_pattrs s (add_attr_x (stk s) (pattrs s) na)).
     simpl in Hnd. apply andb_true_iff in Hnd. destruct Hnd as [Hnd1 Hnd2].
     destruct (InvCore_pending_stk s pe HI Hp) as [top [rest [Es HP]]].
     assert (Hcl : clashb (pattrs s) na = false).
@@ -1262,12 +1444,13 @@ Proof.
     { unfold InvCore, s1, set_pattrs. cbn [stk pend pattrs out]. rewrite Hp.
       apply InvCore_update; auto.
       - exists top. rewrite Es. reflexivity.
-      - apply Pcore_emit; auto. unfold is_declb. cbn [a_name na]. rewrite Hn. reflexivity. }
+      - apply Pcore_addx; auto. unfold is_declb. cbn [a_name na]. rewrite Hn. reflexivity. }
     destruct (IH s1 pe HI1 Hp) as (J1 & J2 & J3 & J4); auto.
     + intros a' Ha'. exact (Hok a' (or_intror Ha')).
     + intros a' Ha'. unfold s1, set_pattrs. cbn [pattrs].
-      destruct (exb (reqf (fst a')) (add_attribute (pattrs s) na)) eqn:X; [|reflexivity].
-      exfalso. apply exb_add in X; [|unfold is_declb; cbn [a_name na]; rewrite Hn; reflexivity].
+      destruct (exb (reqf (fst a')) (add_attr_x (stk s) (pattrs s) na)) eqn:X; [|reflexivity].
+      exfalso. apply exb_addx in X; [|unfold is_declb; cbn [a_name na]; rewrite Hn; reflexivity
+                                     |intros n' M; exact (merge_target_plain _ _ _ _ M)].
       destruct X as [X|X].
       * rewrite (Hex a' (or_intror Ha')) in X. discriminate.
       * cbn [a_req na] in X. apply negb_true_iff in Hnd1.
@@ -1503,14 +1686,14 @@ Proof.
   eapply hz_ext_trans; [apply hz_ext_eq; exact Hh | apply hz_ext_declare_emit].
 Qed.
 
-Lemma hz_ext_new_decl : forall s P L u v r, hz_ext s (attr_new_decl s P L u v r).
+Lemma hz_ext_new_decl : forall nr s P L u v r, hz_ext s (attr_new_decl nr s P L u v r).
 Proof.
   intros. unfold attr_new_decl. cbv zeta.
   destruct (match P with
             | Some AXmlns => None
             | Some p => if atom_eqb p AXml && negb (N.eqb u uXML) then None
                         else match ns_for_prefix (stk s) (Some p) with
-                             | Some w => if negb (N.eqb w u) && is_pending_prefix s p then None else Some p
+                             | Some w => if negb (N.eqb w u) && (nr || is_pending_prefix s p) then None else Some p
                              | None => Some p
                              end
             | None => None
@@ -1519,9 +1702,9 @@ Proof.
   - apply hz_ext_gen_declare_emit.
 Qed.
 
-Lemma hz_ext_attr : forall s name nsattr sns v, hz_ext s (exec_attr s name nsattr sns v).
+Lemma hz_ext_attr : forall inset s name nsattr sns v, hz_ext s (exec_attr inset s name nsattr sns v).
 Proof.
-  intros s [P L] nsattr sns v. unfold exec_attr. cbv beta zeta iota delta [fst snd].
+  intros inset s [P L] nsattr sns v. unfold exec_attr. cbv beta zeta iota delta [fst snd].
   destruct nsattr as [u|].
   - destruct (pend s); [|apply hz_ext_refl].
     destruct (N.eqb u 0); [apply hz_ext_emit|].
@@ -1576,10 +1759,16 @@ Proof.
   { intros. eapply hz_ext_trans; apply hz_ext_if. }
   destruct sns as [n|]; destruct nsattr as [u|].
   - match goal with |- hz_ext _ (if ?c then _ else _) => destruct c end;
+      [apply hz_ext_eq; apply hz_unprefixed|].
+    match goal with |- hz_ext _ (if ?c then _ else _) => destruct c end;
       [apply hz_ext_eq; apply hz_unprefixed | apply G; apply G2].
   - match goal with |- hz_ext _ (if ?c then _ else _) => destruct c end;
+      [apply hz_ext_eq; apply hz_unprefixed|].
+    match goal with |- hz_ext _ (if ?c then _ else _) => destruct c end;
       [apply hz_ext_eq; apply hz_unprefixed | apply G; apply G2].
   - destruct (N.eqb u 0); [apply hz_ext_eq; apply hz_unprefixed|].
+    match goal with |- hz_ext _ (if ?c then _ else _) => destruct c end;
+      [apply hz_ext_eq; apply hz_unprefixed|].
     match goal with |- hz_ext _ (if ?c then _ else _) => destruct c end;
       [apply hz_ext_eq; apply hz_unprefixed | apply G; apply G2].
   - cbn [N.eqb]. eapply hz_ext_trans; [|apply hz_ext_add]. apply hz_ext_eq. apply hz_start.
@@ -1601,6 +1790,7 @@ Proof.
   - apply hz_ext_eq. unfold text. cbv zeta. cbn [hz]. apply hz_flush.
   - apply hz_ext_eq. unfold end_elem. destruct (stk s); [reflexivity|]. cbv zeta. cbn [hz]. apply hz_flush.
   - apply hz_ext_attr.
+  - apply hz_ext_attr.
   - apply hz_ext_elem.
   - apply hz_ext_lre.
   - apply hz_ext_open.
@@ -1615,6 +1805,7 @@ Proof.
   intros s o HI Hh. destruct o; simpl in *.
   - apply text_Inv. exact HI.
   - apply end_Inv. exact HI.
+  - apply attr_Inv; assumption.
   - apply attr_Inv; assumption.
   - apply elem_Inv; assumption.
   - apply lre_Inv; assumption.
@@ -1652,4 +1843,11 @@ Lemma result_ns_wellformed_closed_l : forall ops, guard_ok ops = true ->
 Proof.
   intros ops Hg. unfold guard_ok in Hg. destruct (hz (run ops)) eqn:Hh; [|discriminate].
   destruct (flush_Inv _ (run_Inv ops Hh)) as [[sc [Hc _]] _]. unfold wellformed, events. rewrite Hc. reflexivity.
+Qed.
+
+Lemma k17_unreachable_l : k17_fixed = true -> forall s n v r,
+  hz (emit_attr s n v r) = (match decl_prefix n with Some _ => [HDeclAttr] | None => [] end) ++ hz s.
+Proof.
+  intros F s n v r. unfold emit_attr. rewrite F, andb_false_r.
+  rewrite add_result_attr_hz. destruct (decl_prefix n); reflexivity.
 Qed.
